@@ -376,10 +376,10 @@ func fmtCheck(c *FmtCase) *fmtResult {
 				continue
 			}
 			orig := strings.TrimSuffix(l1[i], "\r")
-			want := strings.TrimRight(orig, " \t")
 			got := strings.TrimSuffix(l2[i], "\r")
-			// a line that is not a posting may lose trailing blanks, nothing else
-			if (got != want && got != orig) || strings.HasSuffix(l1[i], "\r") != strings.HasSuffix(l2[i], "\r") {
+			// a line that is not a posting may lose trailing blanks (ASCII or not), nothing else
+			onlyBlanksLost := strings.HasPrefix(orig, got) && strings.TrimFunc(orig[len(got):], unicode.IsSpace) == ""
+			if !onlyBlanksLost || strings.HasSuffix(l1[i], "\r") != strings.HasSuffix(l2[i], "\r") {
 				add04("c04.other-lines", "line %d is not a posting but changed from %q to %q", i, l1[i], l2[i])
 			}
 		}
